@@ -623,6 +623,11 @@ func (uconn *UConn) MarshalClientHelloNoECH() error {
 		extensionsLen += paddingExt.Len()
 	}
 
+	if len(hello.SessionId) > 0xff || len(hello.CipherSuites) > 0x7fff ||
+		len(hello.CompressionMethods) > 0xff || extensionsLen > 0xffff {
+		return errors.New("utls: ClientHello field does not fit its length prefix")
+	}
+
 	helloLen := headerLength
 	if len(uconn.Extensions) > 0 {
 		helloLen += 2 + extensionsLen // 2 bytes for extensions' length
